@@ -7,8 +7,9 @@ import (
 	"verifharness/spec"
 )
 
-// the 26-character alphabet of the accept/reject harness
-const alphabet = "adiv1./*()[]@:$'\"\\-|=<!, \t"
+// the 28-character alphabet of the accept/reject harness (all four XML
+// whitespace characters included)
+const alphabet = "adiv1./*()[]@:$'\"\\-|=<!, \t\r\n"
 
 func inAlphabet(b byte) bool {
 	r := false
@@ -18,7 +19,7 @@ func inAlphabet(b byte) bool {
 	return r
 }
 
-func isWS(c byte) bool { return c == ' ' || c == '\t' }
+func isWS(c byte) bool { return c == ' ' || c == '\t' || c == '\r' || c == '\n' }
 
 // regions of the recorded findings, as plain scans of the string
 func hasTrailingDotNumber(s string) bool {
